@@ -828,6 +828,102 @@ func (x *G) fill(n, depth int) []*node {
 	return out
 }
 
+// overfill: a child is filled PAST what its length prefix (or its current ASN.1 length form) can express and
+// then rolled back with Unwrite to a target size before it is flushed — the limit is checked at flush time only.
+func (x *G) overfill() []*node {
+	r := x.r
+	rep := func(n int) *node {
+		return &node{kind: 'b', bs: bytes.Repeat([]byte{byte(r.Intn(256))}, n), rep: n}
+	}
+	var c *node
+	var target, over int
+	if r.Chance(3, 5) { // fixed-width prefix
+		k := 1
+		if x.big && r.Bool() {
+			k = 2
+		}
+		lim := limits[k]
+		target = lim + r.PickInt(-1, 0, 0, 1, 1, -200) // final content: fits exactly / by one / does not fit
+		if target < 0 {
+			target = 0
+		}
+		over = r.PickInt(1, 2, 45, 100, 300)
+		if target+over <= lim { // make sure the peak is above the limit
+			over = lim - target + r.Range(1, 40)
+		}
+		c = &node{kind: 'L', k: k}
+		g := "fits"
+		if target > lim {
+			g = "still-too-long"
+		}
+		x.g.Stat(fmt.Sprintf("overfill.lp%d.%s", k, g))
+	} else { // ASN.1 child: the length form needed at the peak differs from the one at flush
+		target = r.PickInt(0, 1, 126, 127, 128, 129, 254, 255, 256, 257)
+		peak := r.PickInt(128, 129, 256, 257, 300)
+		if x.big && r.Bool() {
+			peak = 65536 + r.Intn(3)
+		}
+		if peak <= target {
+			peak = target + r.PickInt(1, 128, 256)
+		}
+		over = peak - target
+		c = &node{kind: 'A', tag: hx.Pick(r, tags[:7])}
+		x.g.Stat("overfill.asn1")
+	}
+	// body: leading small items, the kept run, the excess in 1–3 pieces, one Unwrite removing exactly the excess
+	var body []*node
+	lead := 0
+	for i := r.Intn(3); i > 0 && lead < target; i-- {
+		lf := x.leaf()
+		l, _ := simpleLen(lf)
+		if lead+l <= target {
+			body = append(body, lf)
+			lead += l
+		}
+	}
+	if target-lead > 0 {
+		body = append(body, rep(target-lead))
+	}
+	pieces := r.Range(1, 3)
+	left := over
+	for i := 0; i < pieces && left > 0; i++ {
+		n := left
+		if i < pieces-1 && left > 1 {
+			n = r.Range(1, left-1)
+		}
+		body = append(body, rep(n))
+		left -= n
+	}
+	un := over
+	switch r.Intn(10) {
+	case 0:
+		un = over - 1 // ragged: cuts the last piece (not mirrorable, bytes still compared)
+		x.g.Stat("overfill.ragged")
+	case 1:
+		un = over + target + r.Range(1, 3) // more than the child holds: panic
+		x.g.Stat("overfill.unwrite-beyond")
+	}
+	body = append(body, &node{kind: 'U', n: int64(un)})
+	if r.Chance(1, 3) { // keep writing after the rollback
+		body = append(body, x.leaf())
+	}
+	c.body = body
+	items := []*node{c}
+	for d := r.Intn(3); d > 0; d-- { // nest it
+		lst := []*node{x.leaf()}
+		lst = append(lst, items...)
+		if r.Bool() {
+			lst = append(lst, x.leaf())
+		}
+		if r.Bool() {
+			items = []*node{{kind: 'L', k: r.PickInt(2, 3, 4), body: lst}}
+		} else {
+			items = []*node{{kind: 'A', tag: 0x30, body: lst}}
+		}
+	}
+	return append([]*node{x.leaf()}, items...)
+}
+
 var limits = map[int]int{1: 255, 2: 65535, 3: 16777215}
 
 func (x *G) boundary() []*node {
@@ -911,6 +1007,9 @@ func gen(g *hx.Gen) {
 		x.unwrite = r.Chance(1, 3)
 		var prog []*node
 		switch {
+		case r.Chance(1, 8):
+			g.Stat("shape.overfill")
+			prog = x.overfill()
 		case r.Chance(2, 5):
 			g.Stat("shape.boundary")
 			prog = x.boundary()
